@@ -66,12 +66,19 @@ theorem durInv_appendEntry {n : Node} (h : DurInv n) (c : Cmd) : DurInv (appendE
   · exact h.nosnap
   · exact h.fp_ok
 
+theorem swapRun_valid (n : Node) (d : Db) :
+    swapRun swapSteps (some d) n = { n with dbFile := d, dbFileOk := true, live := d } := by
+  simp [swapRun, swapSteps, List.foldl, swapStep]
+
+theorem swapRun_invalid (n : Node) : swapRun swapSteps none n = n := by
+  simp [swapRun, swapSteps, List.foldl, swapStep]
+
 theorem fsmApply_fields (n : Node) (c : Cmd) :
     (fsmApply n c).hist = n.hist ∧ (fsmApply n c).snap = n.snap ∧ (fsmApply n c).logStart = n.logStart ∧
     (fsmApply n c).live = applyCmd n.live c ∧ (fsmApply n c).applied = n.applied + 1 ∧
-    (fsmApply n c).up = n.up ∧ (fsmApply n c).snapTmp = n.snapTmp ∧ (fsmApply n c).dbFileOk = n.dbFileOk ∧
+    (fsmApply n c).up = n.up ∧ (fsmApply n c).snapTmp = n.snapTmp ∧ (n.dbFileOk = true → (fsmApply n c).dbFileOk = true) ∧
     (fsmApply n c).peersFile = n.peersFile ∧ (fsmApply n c).config = n.config := by
-  cases c <;> simp [fsmApply]
+  cases c <;> simp [fsmApply, swapRun_valid, swapRun_invalid, applyCmd]
 
 theorem durInv_fsmApply {n : Node} (h : DurInv n) (c : Cmd) : DurInv (fsmApply n c) := by
   obtain ⟨h1, h2, h3, _⟩ := fsmApply_fields n c
@@ -80,7 +87,7 @@ theorem durInv_fsmApply {n : Node} (h : DurInv n) (c : Cmd) : DurInv (fsmApply n
   · intro hs; rw [h2] at hs; rw [h3]; exact h.nosnap hs
   · cases c with
     | exec tx ss => exact h.fp_ok
-    | load d => intro hf; simp [fsmApply] at hf
+    | load d => intro hf; simp [fsmApply, swapRun_valid] at hf
     | loadBad => exact h.fp_ok
     | noop => exact h.fp_ok
 
@@ -103,7 +110,7 @@ theorem quiet_write {n : Node} (h : DurInv n) (q : Quiet n) (c : Cmd) :
   · show (fsmApply (appendEntry n c) c).live = truth (write n c)
     rw [ht, f4]; show applyCmd n.live c = _; rw [q.live]
   · show (fsmApply (appendEntry n c) c).snapTmp = none; rw [f7]; exact q.notmp
-  · show (fsmApply (appendEntry n c) c).dbFileOk = true; rw [f8]; exact q.fileok
+  · show (fsmApply (appendEntry n c) c).dbFileOk = true; exact f8 q.fileok
   · show (fsmApply (appendEntry n c) c).peersFile = none; rw [f9]; exact q.nopeers
 
 /-! ### snapshot micro-steps -/
@@ -119,6 +126,12 @@ theorem durInv_snapCheckpoint {n : Node} (h : DurInv n) : DurInv (snapCheckpoint
 
 theorem quiet_snapCheckpoint {n : Node} (q : Quiet n) : Quiet (snapCheckpoint n) ∧ truth (snapCheckpoint n) = truth n :=
   ⟨⟨q.up, q.applied, q.live, q.notmp, q.fileok, q.nopeers⟩, rfl⟩
+
+theorem snapPersist_eq (n : Node) : snapPersist n = { n with snapTmp := some (n.applied, n.live) } := by
+  simp [snapPersist, persistSteps, List.foldl, persistStep]
+
+theorem snapFingerprint_eq (n : Node) : snapFingerprint n = { n with fp := true } := by
+  simp [snapFingerprint, sinkStep]
 
 theorem durInv_snapPersist {n : Node} (h : DurInv n) : DurInv (snapPersist n) :=
   ⟨h.snap_le, h.nosnap, h.fp_ok⟩
@@ -144,11 +157,11 @@ structure MidSnap (n : Node) : Prop where
   nopeers : n.peersFile = none
 
 theorem midSnap_persist {n : Node} (q : SnapPre n) : MidSnap (snapPersist (snapCheckpoint n)) :=
-  ⟨q.up, q.applied, by simp [snapPersist, snapCheckpoint, q.applied], rfl, q.fileok, q.nopeers⟩
+  ⟨q.up, q.applied, by simp [snapPersist_eq, snapCheckpoint, q.applied], rfl, q.fileok, q.nopeers⟩
 
 theorem snapInstall_eq {n : Node} (m : MidSnap n) :
     snapInstall n = { n with snap := some (n.hist.length, n.live), snapTmp := none, fullNeeded := false } := by
-  unfold snapInstall; rw [m.tmp]
+  simp [snapInstall, sinkCloseSteps, List.take, List.foldl, sinkStep, m.tmp]
 
 theorem truth_install {n : Node} (m : MidSnap n) : truth (snapInstall n) = n.live := by
   rw [snapInstall_eq m]
@@ -248,13 +261,13 @@ theorem snapshot_gen {n : Node} (h : DurInv n) (q : SnapPre n) (t : Nat) :
   refine ⟨c5.1, c5.2.2 q4.1, ?_, ?_, ?_, ?_, ?_, ?_, ?_, ?_⟩
   · show truth (snapCompact _ t) = _
     rw [c5.2.1, q4.2, t3]; rfl
-  · show (snapCompact _ t).hist = _; rw [f1, snapFingerprint, hin]; rfl
-  · show (snapCompact _ t).live = _; rw [f2, snapFingerprint, hin]; rfl
-  · show (snapCompact _ t).snap = _; rw [f3, snapFingerprint, hin]; rfl
-  · show (snapCompact _ t).fullNeeded = _; rw [f4, snapFingerprint, hin]
-  · show (snapCompact _ t).config = _; rw [f5, snapFingerprint, hin]; rfl
-  · show (snapCompact _ t).fp = _; rw [f7, snapFingerprint]
-  · show (snapCompact _ t).dbFile = _; rw [f6, snapFingerprint, hin]; rfl
+  · show (snapCompact _ t).hist = _; rw [f1, snapFingerprint_eq, hin]; rfl
+  · show (snapCompact _ t).live = _; rw [f2, snapFingerprint_eq, hin]; rfl
+  · show (snapCompact _ t).snap = _; rw [f3, snapFingerprint_eq, hin]; rfl
+  · show (snapCompact _ t).fullNeeded = _; rw [f4, snapFingerprint_eq, hin]
+  · show (snapCompact _ t).config = _; rw [f5, snapFingerprint_eq, hin]; rfl
+  · show (snapCompact _ t).fp = _; rw [f7, snapFingerprint_eq]
+  · show (snapCompact _ t).dbFile = _; rw [f6, snapFingerprint_eq, hin]; rfl
 
 /-- a complete snapshot from a quiet state changes nothing clients or restarts can see -/
 theorem snapshot_spec {n : Node} (h : DurInv n) (q : Quiet n) (t : Nat) :
@@ -338,6 +351,27 @@ theorem openFast_spec {n : Node} (h : DurInv n) (i : Nat) (d : Db) (hs : n.snap 
     rw [this]; rfl
   · exact ⟨h.snap_le, h.nosnap, h.fp_ok⟩
 
+theorem restoreNewest_some {n : Node} {i : Nat} {d : Db} (hs : n.snap = some (i, d)) :
+    restoreNewest n = { n with dbFile := d, dbFileOk := true, fp := true, live := d, applied := i } := by
+  simp [restoreNewest, hs, restoreSteps, List.foldl, restoreStep]
+
+theorem restoreNewest_none {n : Node} (hs : n.snap = none) :
+    restoreNewest n = { n with dbFile := [], dbFileOk := true, fp := false, live := [], applied := 0 } := by
+  simp [restoreNewest, hs]
+
+theorem truth_restoreNewest (n : Node) : truth (restoreNewest n) = truth n := by
+  cases hs : n.snap with
+  | none => rw [restoreNewest_none hs]; rfl
+  | some p => obtain ⟨i, d⟩ := p; rw [restoreNewest_some hs]; rfl
+
+theorem restoreNewest_fields (n : Node) :
+    (restoreNewest n).hist = n.hist ∧ (restoreNewest n).snap = n.snap ∧ (restoreNewest n).logStart = n.logStart ∧
+    (restoreNewest n).config = n.config ∧ (restoreNewest n).peersFile = n.peersFile ∧ (restoreNewest n).up = n.up ∧
+    (restoreNewest n).snapTmp = n.snapTmp ∧ (restoreNewest n).dbFileOk = true := by
+  cases hs : n.snap with
+  | none => rw [restoreNewest_none hs]; exact ⟨rfl, hs, rfl, rfl, rfl, rfl, rfl, rfl⟩
+  | some p => obtain ⟨i, d⟩ := p; rw [restoreNewest_some hs]; exact ⟨rfl, hs, rfl, rfl, rfl, rfl, rfl, rfl⟩
+
 /-- rebuild path: from any durable state -/
 theorem openRebuild_spec {n : Node} (h : DurInv n) :
     (openRebuild n).live = truth n ∧ DurInv (openRebuild n) ∧ (openRebuild n).dbFileOk = true := by
@@ -345,8 +379,7 @@ theorem openRebuild_spec {n : Node} (h : DurInv n) :
   cases hs : n.snap with
   | none =>
     have hl0 := h.nosnap hs
-    have e : restoreNewest n = { n with dbFile := [], dbFileOk := true, fp := false, live := [], applied := 0 } := by
-      simp [restoreNewest, hs]
+    have e := restoreNewest_none hs
     rw [e]
     refine ⟨?_, ⟨?_, ?_, ?_⟩, rfl⟩
     · have := replayLog_truth (n := { n with dbFile := [], dbFileOk := true, fp := false, live := [], applied := 0 })
@@ -358,8 +391,7 @@ theorem openRebuild_spec {n : Node} (h : DurInv n) :
   | some p =>
     obtain ⟨i, d⟩ := p
     have hle := h.snap_le i d hs
-    have e : restoreNewest n = { n with dbFile := d, dbFileOk := true, fp := true, live := d, applied := i } := by
-      simp [restoreNewest, hs]
+    have e := restoreNewest_some hs
     rw [e]
     refine ⟨?_, ⟨?_, ?_, ?_⟩, rfl⟩
     · have := replayLog_truth (n := { n with dbFile := d, dbFileOk := true, fp := true, live := d, applied := i })
@@ -389,9 +421,9 @@ theorem open_truth {n : Node} (h : DurInv n) (hp : n.peersFile = none) :
     obtain ⟨l, dd, fok⟩ := openRebuild_spec hprep
     have ht : truth (openRebuild (openPrep n)) = truth n := by
       unfold openRebuild; rw [(replayLog_fields _).2.2.2.2.2.2.2.2.2.2.2]
-      unfold truth restoreNewest; simp [openPrep, hs]
+      exact truth_restoreNewest _
     refine ⟨by rw [l, htp], ht, dd, ⟨?_, ?_, by rw [l, htp, ht], ?_, fok, ?_⟩, ?_, ?_⟩ <;>
-      simp [openRebuild, replayLog, restoreNewest, openPrep, hs, hp]
+      simp [openRebuild, replayLog, restoreNewest, restoreSteps, restoreStep, openPrep, hs, hp]
   | some p =>
     obtain ⟨i, d⟩ := p
     simp only
@@ -405,9 +437,9 @@ theorem open_truth {n : Node} (h : DurInv n) (hp : n.peersFile = none) :
       obtain ⟨l, dd, fok⟩ := openRebuild_spec hprep
       have ht : truth (openRebuild (openPrep n)) = truth n := by
         unfold openRebuild; rw [(replayLog_fields _).2.2.2.2.2.2.2.2.2.2.2]
-        unfold truth restoreNewest; simp [openPrep, hs]
+        exact truth_restoreNewest _
       refine ⟨by rw [l, htp], ht, dd, ⟨?_, ?_, by rw [l, htp, ht], ?_, fok, ?_⟩, ?_, ?_⟩ <;>
-        simp [openRebuild, replayLog, restoreNewest, openPrep, hs, hp]
+        simp [openRebuild, replayLog, restoreNewest, restoreSteps, restoreStep, openPrep, hs, hp]
 
 theorem recoverNode_spec {n : Node} (h : DurInv n) (peers : Config) :
     DurInv (recoverNode n peers) ∧ truth (recoverNode n peers) = truth n ∧
@@ -450,7 +482,7 @@ theorem open_recover_truth {n : Node} (h : DurInv n) (peers : Config) (hp : n.pe
     intro m
     cases hs : m.snap with
     | none => simp [openRebuild, restoreNewest, replayLog, hs]
-    | some p => simp [openRebuild, restoreNewest, replayLog, hs]
+    | some p => simp [openRebuild, restoreNewest, restoreSteps, restoreStep, replayLog, hs]
   obtain ⟨g1, g2, g3, g4, g5, g6, g7, g8⟩ := hflds (recoverNode (openPrep n) peers)
   have htp : truth (openPrep n) = truth n := rfl
   have ht : truth (openRebuild (recoverNode (openPrep n) peers)) = truth n := by
